@@ -5,6 +5,7 @@ package main
 import (
 	"encoding/json"
 	"strings"
+	"time"
 
 	metav1 "k8s.io/apimachinery/pkg/apis/meta/v1"
 
@@ -27,6 +28,8 @@ type c13Case struct {
 	N    int64   `json:"n"`
 	ID   B       `json:"id"`
 	Ops  []c13Op `json:"ops"`
+	// Store: "" or "local" = in-memory store; "k8s" = API-backed store in periodic mode over the fake clientset
+	Store string `json:"store"`
 }
 
 type c13Step struct {
@@ -63,7 +66,12 @@ func runC13(raw json.RawMessage) interface{} {
 		})
 		return map[string]interface{}{"srv": srv, "gw": gw}
 	}
-	rig := newLimRig(c.ID.S(), int(c.N), "local")
+	var rig *limRig
+	if c.Store == "k8s" {
+		rig = newLimRigWith(c.ID.S(), int(c.N), "k8s", time.Hour)
+	} else {
+		rig = newLimRig(c.ID.S(), int(c.N), "local")
+	}
 	steps := []c13Step{}
 	for _, op := range c.Ops {
 		st := c13Step{Res: "nil", NamesLeader: true}
@@ -79,6 +87,15 @@ func runC13(raw json.RawMessage) interface{} {
 		case "start":
 			rig.startLeading(op.Shard)
 		case "stop":
+			rig.stopLeading(op.Shard)
+		case "stopflaky":
+			// leadership is lost during a short API outage: the first flush of the
+			// shard store fails, the limiter's own retry (2 s later) succeeds
+			rig.setFailWrites(true)
+			go func() {
+				time.Sleep(300 * time.Millisecond)
+				rig.setFailWrites(false)
+			}()
 			rig.stopLeading(op.Shard)
 		case "check":
 			rig.v.LeaderCheck()
